@@ -478,7 +478,7 @@ def run(tier):
     items = [(s, r) for s in tree.shapes_upto(nmax - 1) for r in ((0, 3) if tier == "quick" else (0, 3, 7))]
     items += [(s, 1 + k % 5) for k, s in enumerate(tree.plane_trees(nmax))]
     # node classes with value semantics / their own truth value (identifiers and admission must not depend on them)
-    items += [(s, 2, kind) for kind in ("eqhash", "falsy", "weird") for s in tree.shapes_upto(nmax - 1)]
+    items += [(s, 2, kind) for kind in ("eqhash", "falsy", "weird", "tuplenode", "tuple0") for s in tree.shapes_upto(nmax - 1)]
     items += [(s, 9) for s in tree.shapes_upto(nmax - 1)]   # non-string names
     t = core.Tally()
     jobs = [(MOD, "job", {"items": [it], "custom": True, "histories": True}) for it in items[::-1]]
